@@ -450,3 +450,4 @@ import p_c05  # noqa
 import p_json  # noqa
 import p_c16  # noqa
 import p_c15  # noqa
+import p_c03  # noqa
